@@ -780,6 +780,10 @@ func (e *cenv) specCall(name string, args []*CExpr) Value {
 		}
 	}
 	fx.usesSpec = true
+	if fx.specUsed == nil {
+		fx.specUsed = map[string]bool{}
+	}
+	fx.specUsed[sf.File] = true
 	t := ts.App("spec."+name, sf.Result, ta...)
 	if sf.Result == SBool {
 		return VBool{t}
